@@ -53,15 +53,25 @@ def router_check(pid, tier):
                 v["kind"] = "%s:%s" % (r["kind"], v["kind"])
                 viols.append(v)
 
-    server_part = None
-    if pid == "C01":
-        # "... and to no subscriber of any other topic": the per-topic routers are selected by the
-        # server's topic map; isolation is exercised over loopback QUIC (raw-peer e2e pipeline)
+    server_part = fan_part = None
+    if pid in ("C01", "C02"):
+        # "... and to no subscriber of any other topic" / "the" router of a topic: the per-topic routers are
+        # selected (and created, once) by the server's topic map; isolation of names and concurrent first
+        # registrations are exercised over loopback QUIC (raw-peer e2e pipeline, ServerReg model)
         import e2e_checks
         server_part = e2e_checks.server_pipeline(tier)
+        if not server_part["model_ok"]:
+            raise ToolError("TLC reports ServerReg violates its properties:\n" + server_part["model_tail"])
         for v in server_part["viol"]:
             if pid in v["props"]:
                 viols.append(dict(v, router="server", kind="server:" + v["kind"], schedule=None, trace=v.get("context", [])))
+    if pid == "C01":
+        # the same schedules at system level: real publishers and subscribers on one topic
+        fan_part = e2e_checks.fanout_pipeline(tier)
+        for v in fan_part["viol"]:
+            viols.append(dict(v, router="system", kind="fanout:" + v["kind"]))
+        for n in fan_part["inconclusive"][:5]:
+            log("NOTE fanout run=%s line=%s inconclusive: %s" % (n["run"], n["line"], n["what"]))
 
     def mk(v):
         return write_replay(pid, v["kind"], {
@@ -73,8 +83,8 @@ def router_check(pid, tier):
     cov = {
         "states": sum(r["model"]["states"] for r in results),
         "transitions": sum(r["model"]["transitions"] for r in results),
-        "traces_validated_against_impl": sum(r["runs"] for r in results),
-        "events_validated": sum(r["events"] for r in results),
+        "traces_validated_against_impl": sum(r["runs"] for r in results) + (fan_part["runs"] if fan_part else 0),
+        "events_validated": sum(r["events"] for r in results) + (fan_part["events"] if fan_part else 0),
         "exhaustive": True,
         "models": [{k: m[k] for k in ("module", "cfg", "states", "transitions", "depth", "wall_s",
                                        "action_coverage", "actions_never_taken")} for r in results for m in r["models"]],
@@ -86,7 +96,11 @@ def router_check(pid, tier):
         "known_findings_hit": hit,
         "pipeline_reused_from_cache": [r["kind"] for r in results if r.get("cached")],
         "samples": [s for r in results for s in r["samples"]][:4],
-        "isolation_e2e": ({"name_pairs": 6, "events_validated": server_part["events"]} if server_part else None),
+        "server_level": ({"name_isolation_pairs": 6, "concurrent_first_registration_rounds": e2e_checks.TIERS[tier]["race"],
+                          "events_validated": server_part["events"], "models": server_part["models"]} if server_part else None),
+        "system_level_fanout": ({k: fan_part[k] for k in ("schedules_from_model", "distinct_after_projection", "model_schedules_used",
+                                                           "random_schedules", "runs", "events", "deliveries_checked", "n_viol",
+                                                           "n_inconclusive", "sample", "wall_s")} if fan_part else None),
         "explanation": "TLC exhaustively checks the implementation-shaped router module(s) against the "
                        "property-level module(s) for the configured bound (states/transitions above), then "
                        "every generated and random schedule is replayed on the real router future and TLC "
@@ -149,6 +163,32 @@ def server_check(pid, tier):
 
 def replay(pid, path):
     payload = json.load(open(path))
+    if payload.get("router") == "server":
+        print("server-level case: re-run ./check %s (deterministic for VERIF_SEED); recorded context:" % pid)
+        print(json.dumps(payload.get("trace"), indent=1)[:6000])
+        return 0
+    if payload.get("router") == "system":
+        import e2e_checks
+        from common import BIN, sh, tlc
+        build_harness()
+        work = Work("replay")
+        try:
+            sf = work.path("sched.jsonl")
+            with open(sf, "w") as f:
+                f.write(json.dumps(payload["schedule"]) + "\n")
+            tr = work.path("trace.ndjson")
+            sh([os.path.join(BIN, "e2e"), "fanout", "--cases", sf, "--out", tr, "--par", "1"], timeout=600)
+            print(open(tr).read())
+            r = tlc("Trace_Fanout", "Trace_Fanout.cfg", work, workers=1, trace=tr, timeout=600)
+            for v in r.viol:
+                print("flagged:", v)
+            if r.viol:
+                print("VIOLATION property=%s replay=%s" % (pid, path))
+                return 1
+            print("replay: no violation of %s" % pid)
+            return 0
+        finally:
+            work.cleanup()
     if "router" in payload:
         build_harness()
         work = Work("replay")
